@@ -222,6 +222,29 @@ def gen_corpus(rng, big=False):
             continue
         ln = rng.range(1, maxlen)
         sents.append([vocab[zipf_pick(rng, types, skew)] for _ in range(ln)])
+    if rng.chance(1, 9):
+        # very long word types: byte lengths around the 8192-byte buffer of the text output streams (util/file_stream.hh) and
+        # several buffers long; at the first and the last position of the vocabulary (= of the unigram section), next to
+        # each other, and in the middle of ordinary sentences
+        lens = [8191, 8192, 8193, 8194, 16383, 16384, 16385, 20000, 3 * 8192 + 7, 8192 - 20, 4096]
+        longs = []
+        for i in range(rng.range(1, 3)):
+            ln = rng.choice(lens)
+            head = b"L%d_" % i
+            longs.append(head + bytes([97 + (i + j) % 26 for j in range(ln - len(head))]))
+        vocab = list(vocab) + longs
+        r = rng.below(4)
+        if r == 0:
+            sents.insert(0, [longs[0]] + (sents[0] if sents else []))           # first word type of the corpus
+        elif r == 1:
+            sents.append([rng.choice(vocab), longs[0]])                          # last word type
+        elif r == 2:
+            sents.insert(rng.below(len(sents) + 1), [longs[0], longs[-1], longs[0]])   # long words next to each other
+        for w in longs:
+            for _ in range(rng.range(1, 3)):
+                t = list(rng.choice(sents)) if sents and rng.chance(2, 3) else []
+                t.insert(rng.below(len(t) + 1), w)
+                sents.insert(rng.below(len(sents) + 1), t)
     if style == "f1":
         # directed at the class of F1: the word type with the highest id (it must be introduced last) occurs
         # 2..4 times, always after the same word, so that its adjusted count (1) differs from its raw count (< 5);
